@@ -182,12 +182,44 @@ def exhaustive(ctx, sample):
     return n
 
 
+VDEFS = ['lm', 'lm[*]', 'm', 'l', 'l[*]', 'a', 'zz', 'lm[ k exists ]', 'lm[*].sub', '"x"', '[1, 5]', 'll']
+VUSES = ['%v', '%v[*]', '%v[ k exists ]', '%v[ k == 5 ].k', '%v.k', '%v[0]', '%v[0].k', '%v[ this == 1 ]', '%v.*', '%v[ x == 1 ].y', '%v[*][ k exists ].t',
+         '%v[ sub[ x == 1 ] !empty ].k']
+VOPS = ['exists', '!exists', 'empty', '!empty', 'is_list', '== 1', '== 5', '!= 1', 'in [1, 5]', 'not in [1, 5]', '== "x"', '>= 2']
+
+
+def variables(ctx, sample):
+    """single clauses whose query starts with a variable: definition x use x operator x all/some x prefix not, x documents.
+    (`%v[ filter ]` tests each value of the variable; a filter after `[*]` likewise)"""
+    rng = random.Random(ctx.seed * 101 + 3)
+    pairs = []
+    n_clauses = 0
+    for di, doc in enumerate(DOCS):
+        for d in VDEFS:
+            clauses = ['%s%s%s %s' % (neg, some, u, op) for u in VUSES for op in VOPS for some in ('', 'some ') for neg in ('', 'not ')]
+            if sample is not None:
+                clauses = rng.sample(clauses, sample)
+            n_clauses += len(clauses)
+            for k in range(0, len(clauses), 25):
+                chunk = clauses[k:k + 25]
+                text = 'let v = %s\n' % d + ''.join('rule r%d {\n  %s\n}\n' % (i, c) for i, c in enumerate(chunk))
+                pairs.append({'rules': text, 'data': json.dumps(doc), 'loader': 'json'})
+    res = spec_cases(pairs, ctx.wd, 'c01var')
+    stats = {}
+    n = judge(ctx, pairs, res, stats)
+    ctx.coverage['variable_clause_programs_run'] = n_clauses
+    ctx.coverage['variable_clause_file_verdicts'] = stats
+    ctx.coverage['evaluations'] += n_clauses
+    return n
+
+
 def run(ctx):
     ctx.build()
     pr = ctx.proofs('C01')
     thorough = ctx.tier == 'thorough'
     n1, pairs = generated(ctx, 1500 if thorough else 250)
     n2 = exhaustive(ctx, None if thorough else 1500)
+    n2 += variables(ctx, None if thorough else 25)
     out, errs = corr.run(pairs[:400], ctx.wd, 'c01corr', loader='cli')
     if errs:
         raise ToolingError('model evaluation failed: %r' % (errs[:1],))
